@@ -54,9 +54,16 @@ def check_scenario(sc):
         kw = {}
         if sc.get('counters'):
             kw['counters'] = {'no-hash': {'resource-hash': None}, 'no-bytes': {'resource-bytes': None, 'datapackage-bytes': None}}[sc['counters']]
+        def eager(package):
+            # a downstream step that asks for every resource before it reads any row (e.g. to reorder them)
+            yield package.pkg
+            for r in list(package):
+                yield r
+        tail = [eager] if sc.get('eager') else []
+        tag = '/eager-consumer' if sc.get('eager') else ''
         with rec.active():
             core.Flow(core.from_state(st),
-                      core.dataflows.dump_to_path(root, format=fmt, add_filehash_to_path=filehash, **kw)).process()
+                      core.dataflows.dump_to_path(root, format=fmt, add_filehash_to_path=filehash, **kw), *tail).process()
         states = rec.crash_states()
         seen = set()
         for label, cs in states:
@@ -66,8 +73,9 @@ def check_scenario(sc):
             out['keys'].append(h([sc, fsrec.state_key(cs)]))
             if what and 'v' not in seen:
                 seen.add('v')
-                out['viol'].append(('descriptor-before-data/%s' % fmt, 'dump_to_path(%s%s) of shape %r, kill %s: %s' %
-                                    (fmt, ', add_filehash_to_path' if filehash else '', shape, label, what),
+                out['viol'].append(('descriptor-before-data/%s%s' % (fmt, tag), 'dump_to_path(%s%s)%s of shape %r, kill %s: %s' %
+                                    (fmt, ', add_filehash_to_path' if filehash else '',
+                                     ' followed by a step that requests all resources before reading rows' if tag else '', shape, label, what),
                                     dict(sc, label=label)))
         # interruptions that unwind through Python: OSError at the k-th fs operation, the source raising at row j
         import gc
@@ -95,11 +103,11 @@ def check_scenario(sc):
             out['keys'].append(h([sc, label]))
             if what and 'e' not in seen:
                 seen.add('e')
-                out['viol'].append(('descriptor-after-failure/%s' % fmt, 'dump_to_path(%s) of shape %r, %s: %s' % (fmt, shape, label, what),
+                out['viol'].append(('descriptor-after-failure/%s%s' % (fmt, tag), 'dump_to_path(%s)%s of shape %r, %s: %s' % (fmt, ' + eager consumer' if tag else '', shape, label, what),
                                     dict(sc, label=label)))
         for k in range(nops):
             after_failure('OSError at fs op #%d' % k, lambda root2: core.Flow(
-                core.from_state(scenario_state(shape, nested)), core.dataflows.dump_to_path(root2, format=fmt, add_filehash_to_path=filehash, **kw)), fail_at=k)
+                core.from_state(scenario_state(shape, nested)), core.dataflows.dump_to_path(root2, format=fmt, add_filehash_to_path=filehash, **kw), *tail), fail_at=k)
         total = sum(shape)
         for j in range(total):
             def mk(root2, j=j):
@@ -110,7 +118,7 @@ def check_scenario(sc):
                     if cnt[0] == j + 1:
                         raise RuntimeError('source fails at row %d' % j)
                 return core.Flow(core.from_state(scenario_state(shape, nested), on_pull=boom),
-                                 core.dataflows.dump_to_path(root2, format=fmt, add_filehash_to_path=filehash, **kw))
+                                 core.dataflows.dump_to_path(root2, format=fmt, add_filehash_to_path=filehash, **kw), *tail)
             after_failure('source raising at row %d of %d' % (j, total), mk)
         final_what, final_outcome = check_state(rec.points[-1][1])
         if final_outcome != 'descriptor-complete' and not seen:
@@ -137,6 +145,10 @@ def scenarios(tier):
         for counters in ('no-hash', 'no-bytes'):
             for sh in ([1], [3, 0], [1, 3, 1]):
                 out.append({'shape': sh, 'format': fmt, 'filehash': False, 'nested': False, 'counters': counters})
+    # the dumper is not the last step and its consumer is eager
+    for fmt in ('csv', 'json'):
+        for sh in ([1], [1, 1], [3, 0, 1]):
+            out.append({'shape': sh, 'format': fmt, 'filehash': False, 'nested': False, 'eager': True})
     if tier == 'thorough':
         for fmt in ('csv', 'json'):
             out.append({'shape': [40, 0, 25], 'format': fmt, 'filehash': False, 'nested': True})
@@ -159,5 +171,5 @@ def run(run):
 
 
 def replay(w):
-    sc = {k: w[k] for k in ('shape', 'format', 'filehash', 'nested', 'counters') if k in w}
+    sc = {k: w[k] for k in ('shape', 'format', 'filehash', 'nested', 'counters', 'eager') if k in w}
     return check_scenario(sc)['viol']
